@@ -26,6 +26,18 @@ let json_of (text : Zar.t list) : Zar.t list = (zi 34 :: text) @ [ zi 34 ]
 let same b = "asis=" ^ if b then "same" else "diff"
 let hsz v = hx v
 
+(* ---------------------------------------------------------------- round 3: the word size of the answering build
+   every `ok` answer carries `wb=<bits>` as its second token (harness main); the word-level as-is models are run
+   at exactly that word size *)
+let cur_wb = ref 0
+let wz () = zi !cur_wb
+let ok_text = function Ok t -> Some t | _ -> None
+let nat_len l = List.length l
+let cmp_tok (c : comparison) (sgn : int) =
+  (* the harness prints Exact | Pos | Neg = sign of (rounded - exact) ... as the Inexact(_, sign) of to_f64 *)
+  match c with Eq -> "Exact" | Gt -> "Pos" | Lt -> "Neg"
+let flag_tok = function None -> "Exact" | Some NoOp -> "NoOp" | Some AddOne -> "AddOne" | Some SubOne -> "SubOne"
+
 (* words of a magnitude for a word size *)
 let words_of w v = to_words (zi w) (nat_of_int ((bits v + w - 1) / w)) v
 
@@ -94,7 +106,101 @@ let plain_json_string (bs : Zar.t list) : Zar.t list option =
       else None
   | _ -> None
 
-let judge op args got =
+
+(* ---------------------------------------------------------------- exp / ln / powi against the specification of C11
+   The extracted checkers of Float/ElemEncl.v (certified interval enclosures of the true value: accept = the answer is
+   within one unit in the last place and an Exact flag is truthful) and the entry logic of Float/ElemEntry.v, imported
+   read-only.  As in oracle/driver_c11.ml this file only chooses working precisions (heuristics: a bad choice can only
+   give VUndecided, never a wrong verdict) and escalates them. *)
+let log2f x = log x /. log 2.0
+let nbits v = Zar.numbits v
+let iceil x = int_of_float (ceil x)
+let pos_of i = zi (max 2 i)
+let alog2 b s e = float_of_int (nbits s) -. 0.5 +. Zar.to_float e *. log2f (Zar.to_float b)
+let aln b s e =
+  let l2 = alog2 b s e in
+  if abs_float l2 < 900.0 then begin
+    let ef = Zar.to_int e in
+    let num, den = if ef >= 0 then (Zar.mul s (Zar.pow b ef), Zar.one) else (s, Zar.pow b (- ef)) in
+    let d = Zar.sub num den in
+    if Zar.sign d = 0 then 0.0
+    else
+      let rel = (float_of_int (nbits d) -. float_of_int (nbits den)) in
+      if rel < -20.0 then (if Zar.sign d > 0 then 1.0 else -1.0) *. (2.0 ** rel)
+      else l2 *. log 2.0
+  end else l2 *. log 2.0
+let schedule prt =
+  let rec go q acc = if q >= prt then List.rev (zi prt :: acc) else go (2 * q) (zi q :: acc) in
+  go 110 []
+let margins = [ 48; 160; 600 ]
+let rec first_decided = function
+  | [] -> VUndecided
+  | f :: rest -> (match f () with VUndecided -> first_decided rest | v -> v)
+let bits_of b p = iceil (Zar.to_float p *. log2f (Zar.to_float b)) + 2
+let elem_attempts op b p s e n rs re fexact : ((unit -> verdict) * (unit -> verdict)) list =
+  let bits = bits_of b p in
+  let rbits = nbits rs + 8 in
+  match op with
+  | "fexp" ->
+      let lx = alog2 b s e in
+      let attempt mg =
+        let tiny = lx < -. float_of_int (bits + 24) in
+        let prt = if tiny then 40 else bits + mg + iceil (abs_float lx) + 8 in
+        let pra = max prt (bits + mg) + rbits + nbits s + iceil (max 0.0 (-. lx)) + 64 in
+        ((fun () -> check_exp (pos_of prt) (pos_of pra) b p s e rs re fexact),
+         (fun () -> loose_exp (pos_of prt) (pos_of pra) b p s e rs re)) in
+      List.map attempt margins
+  | "fln" ->
+      let lt = (let v = aln b s e in if v = 0.0 then 0.0 else log2f (abs_float v)) in
+      let attempt (mg, from_result) =
+        let slack = bits + mg + iceil (max 0.0 (-. lt)) + 8 in
+        let prt = slack + 40 + iceil (max 0.0 lt) in
+        let pra = prt + rbits + nbits s + 64 in
+        let steps = if from_result then [ zi prt ] else schedule prt in
+        ((fun () -> check_ln (pos_of prt) (pos_of pra) (zi slack) from_result steps b p s e rs re fexact),
+         (fun () -> loose_ln (pos_of prt) (pos_of pra) (zi slack) (schedule prt) b p s e rs re)) in
+      List.map attempt ((if bits >= 24 then [ (48, true) ] else []) @ [ (48, false); (200, false); (800, false) ])
+  | _ ->
+      let an = Zar.abs n in
+      let exact_ok = Zar.equal (Zar.abs s) Zar.one || (Zar.numbits an < 40 && Zar.to_float an *. float_of_int (nbits s) < 1.0e5) in
+      let attempt mg =
+        let pra = bits + mg + rbits + 4 * nbits an + nbits s + 64 in
+        ((fun () -> check_powi (pos_of pra) exact_ok b p s e n rs re fexact),
+         (fun () -> loose_powi (pos_of pra) b p s e n rs re)) in
+      List.map attempt margins
+let panic_name = function EPUnlimited -> "UnlimitedPrecision" | EPNegBase -> "PowerNegativeBase" | EPLogDomain -> "LogNonPositive"
+let judge_elem op b m p s0 e0 n got =
+  let (s, e) = normalize b s0 e0 in
+  let entry = (match op with "fexp" -> exp_entry p s false | "fln" -> ln_entry b p s e false | _ -> powi_entry b p m s e n) in
+  if op = "fpowi" && Zar.sign s = 0 && Zar.sign n < 0 then
+    (match got with "panic" :: _ -> pass ~nt:false ~extra:"cls=elem-out-of-domain" () | _ -> pass ~nt:false ~extra:"cls=elem-out-of-domain-value" ())
+  else
+  match entry with
+  | EPanic r -> expect ~nt:false ~extra:("cls=elem-panic-" ^ panic_name r) ("panic " ^ panic_name r) got
+  | _ -> (
+    match got with
+    | [ "ok"; rs; re; f; _ ] ->
+        if rs = "inf" || rs = "-inf" then fail "finite-result"
+        else
+          let rs = z rs and re = z re in
+          let fexact = (f = "Exact") in
+          let cls = (match entry with EExact _ -> "entry-exact" | ERound _ -> "entry-round" | _ -> "computed") ^ "-" ^ f in
+          if Zar.gt (dlen b rs) p then fail ("at-most-" ^ hx p ^ "-digits")
+          else begin
+            let att = elem_attempts op b p s e n rs re fexact in
+            let directed = (match m with MHalfEven | MHalfAway -> false | _ -> true) in
+            match first_decided (List.map fst att) with
+            | VAccept -> pass ~extra:("cls=elem-" ^ cls) ()
+            | VReject ->
+                if directed && entry = ECompute && not fexact && first_decided (List.map snd att) = VAccept
+                then known "directed_faithful" ("within-1ulp cls=" ^ cls)
+                else { v = "fail"; extra = "not-within-1ulp-or-untruthful-Exact cls=" ^ cls }
+            | VUndecided -> skip ("undecided-" ^ cls)
+          end
+    | [ "panic"; c ] -> fail ("value-not-panic-" ^ c)
+    | _ -> fail "ok-sig-exp-flag-prec")
+
+let judge0 op args got =
   let arg i = List.nth args i in
   let a i = z (arg i) in
   let n i = usz (arg i) in
@@ -203,11 +309,9 @@ let judge op args got =
              else if check_contract b p m x (z s) (z e) (flag_of f) then pass ~extra:("cls=float-" ^ f) ()
              else fail "rounding-contract"
          | _ -> fail "ok-sig-exp-flag-prec")
-  | "fexp" | "fln" | "fpowi" -> (
-      (* no executable specification here (C11): the answers are compared between the configurations only *)
-      match got with
-      | "ok" :: _ | "panic" :: _ -> skip "cross-config-only"
-      | _ -> fail "ok-or-panic")
+  | "fexp" | "fln" | "fpowi" ->
+      (* judged against the specification of C11 in every build (round 2: only diffed between the builds) *)
+      judge_elem op (n 0) (mode_of (arg 1)) (n 2) (a 3) (a 4) (if op = "fpowi" then a 5 else Zar.zero) got
   | "ftostr" ->
       let b = n 0 in
       let (s, e) = fnormalize b (a 3) (a 4) in
@@ -242,27 +346,61 @@ let judge op args got =
             else fail "farey-neighbours"
         | _ -> fail "ok up down")
   | "ftof64" -> (
-      (* open finding F06: where the internal base-2 conversion hands over more bits than the target
-         precision (flag read by the harness through the public API, predicted by the as-is model
-         FloatToIeeeAsis.wide_class) debug builds panic on a debug assertion and release builds
-         round twice; outside the class the answers are compared between the builds *)
+      (* FBig::to_f64 (always HalfEven, 53 bits) / to_f32 (own mode, 24 bits) against the specification of C06 ieee_round of the
+         exact value.  Two OPEN classes (both also open in C06): the internal base-2 conversion hands over more bits than the
+         target precision (flag read by the harness through the public API, predicted by FloatToIeeeAsis.wide_class):
+         debug builds panic on a debug assertion, release builds round twice; and results in the subnormal range
+         (rounded at 53 / 24 bits first, then again by the encoder).  Outside the classes every build must return
+         the specification's bits and flag. *)
       let b = n 0 and m = mode_of (arg 1) in
       let (s, e) = fnormalize b (a 3) (a 4) in
       let pow2 = Zar.equal b (zi 2) || Zar.equal b (zi 8) || Zar.equal b (zi 16) in
       let w64 = (not pow2) && wide_class (zi 53) MHalfEven b s e and w32 = (not pow2) && wide_class (zi 24) m b s e in
+      let (nn, dd) = frac b s e in
+      let part (f : fmt) (pp : enc_params) mm =
+        let (bits, c) = ieee_round f mm nn dd in
+        let want = hx bits ^ " " ^ flag_tok (flag_of_error (zi (Zar.sign nn)) c) in
+        let asis = (match fbig_to_float pp b mm s e with Ok (FR (ab, fl)) -> hx ab ^ " " ^ flag_tok fl | Panic _ -> "panic -" | _ -> "?") in
+        let minnorm_e = Zar.to_int (Zar.add f.emin (Zar.sub f.prec Zar.one)) in
+        let an = Zar.abs nn in
+        let below_normal = Zar.sign nn <> 0 && (if minnorm_e >= 0 then Zar.lt an (Zar.mul dd (Zar.pow (zi 2) minnorm_e))
+          else Zar.lt (Zar.mul an (Zar.pow (zi 2) (- minnorm_e))) dd) in
+        (want, asis, below_normal) in
       match got with
-      | [ "ok"; flags; a64; _; a32; _ ] when String.length flags = 7 && String.sub flags 0 5 = "wide=" ->
+      | [ "ok"; flags; a64; f64'; a32; f32' ] when String.length flags = 7 && String.sub flags 0 5 = "wide=" ->
           let g64 = flags.[5] = '1' and g32 = flags.[6] = '1' in
-          let fid = same (g64 = w64 && g32 = w32) in
+          let (want64, asis64, sub64) = part f64 p64 MHalfEven and (want32, asis32, sub32) = part f32 p32 m in
+          let got64 = a64 ^ " " ^ f64' and got32 = a32 ^ " " ^ f32' in
+          let large_ = (not pow2) && Zar.gt (Zar.abs e) (zi 38) in
+          let fid = same (g64 = w64 && g32 = w32 && (large_ || ((g64 || got64 = asis64) && (g32 || got32 = asis32)))) in
+          let want = Printf.sprintf "ok wide=%s%s %s %s" (b2s w64) (b2s w32) want64 want32 in
+          (* one part: `Pass | `Known tag | `Fail *)
+          (* |exponent| > THRESHOLD_SMALL_EXP = 38 in a base that is not a power of two: the conversion goes through the
+             ln/exp route of convert_base, which is not faithful (open class convert_base_large_exp_not_faithful of C08, no
+             exact as-is model): an answer that differs from the specification there is left undecided (the builds are
+             still diffed against each other) *)
+          let large = (not pow2) && Zar.gt (Zar.abs e) (zi 38) in
+          (* one part: `Pass | `Known tag | `Skip | `Fail *)
+          let judge_part wide_flag gotp wantp asisp sub =
+            if gotp = wantp then `Pass
+            else if wide_flag then `Known "fbig_to_float_wide_significand"
+            else if sub && gotp = asisp then `Known "fbig_to_float_subnormal"
+            else if large then `Skip
+            else `Fail in
           if (a64 = "panic" && not g64) || (a32 = "panic" && not g32) then fail "no-panic-outside-the-class"
-          else if g64 || g32 then { (known "fbig_to_float_wide_significand" "debug=release") with extra = fid ^ " cls=f06" }
-          else { (skip "cross-config-only") with extra = "why=cross-config-only " ^ fid }
+          else (match judge_part g64 got64 want64 asis64 sub64, judge_part g32 got32 want32 asis32 sub32 with
+            | `Fail, _ | _, `Fail -> fail want
+            | `Known t, _ | _, `Known t -> { (known t want) with extra = fid ^ " cls=" ^ t }
+            | `Skip, _ | _, `Skip -> { (skip "large-exponent-route-cross-config-only") with extra = "why=large-exponent-route-cross-config-only " ^ fid }
+            | `Pass, `Pass -> pass ~extra:(fid ^ " cls=fbig-to-float" ^ (if g64 || g32 then "-wide-but-right" else "")) ())
       | _ -> fail "ok wide=XY f64 flag f32 flag")
-  | "qtof64" -> (
-      (* conversions with debug assertions in their code (DESIGN 5.1 #13, #14): compared between the builds *)
-      match got with
-      | "ok" :: _ | "panic" :: _ -> skip "cross-config-only"
-      | _ -> fail "ok-or-panic")
+  | "qtof64" ->
+      (* RBig::to_f64 / to_f32 against the IEEE round-to-nearest-even of the exact quotient (Conv/ConvSpec.v ieee_rne,
+         = binary_normalize of Flocq by C06_spec_is_flocq_f32/f64); as-is: Conv/ConvModel.v rat_to_float (= spec by C06_rat_to_f64) *)
+      let (nn, dd) = rat_reduce (a 0) (a 1) in
+      let (b64, c64) = ieee_rne f64 nn dd and (b32, c32) = ieee_rne f32 nn dd in
+      let fid = same (rat_to_float p64 nn dd = (b64, c64) && rat_to_float p32 nn dd = (b32, c32)) in
+      expect ~extra:(fid ^ " cls=rat-to-float") (Printf.sprintf "ok %s %s %s %s" (hx b64) (cmp_tok c64 0) (hx b32) (cmp_tok c32 0)) got
   | "qfromstr" -> (
       match got with
       | [ "ok"; nn; dd; lay ] -> if lay = "1" && rat_canonb (z nn) (z dd) then pass () else fail "canonical-rational"
@@ -271,42 +409,57 @@ let judge op args got =
   (* ---------------------------------------------------------------- serialization round trips *)
   | "ser_ubig" ->
       let v = a 0 in
-      let pc = w_ubig_enc v and js = json_of (dec_text v) in
+      let text = (match json_int_text v with Ok t -> t | _ -> failwith "json_int_text") in
+      let pc = w_ubig_enc v and js = json_of text in
       let body k w = bytes_enc (ubig_ser_asis (zi k) (words_of w v)) in
-      let fid = same (body 8 64 = pc && body 4 32 = pc) in
+      let jfid w = json_int_text_asis (zi w) v = Ok text && json_int_de_asis (zi w) false text = Ok v in
+      let fid = same (body 8 64 = pc && body 4 32 = pc && jfid 64 && jfid 32 && json_int_de false text = Ok v && text = dec_text v) in
       expect ~extra:(fid ^ " cls=ser-int") (Printf.sprintf "ok %s %s %s %s 1" (tok_of_bytes pc) (hx v) (tok_of_bytes js) (hx v)) got
   | "ser_ibig" ->
       let v = a 0 in
-      let pc = w_ibig_enc v and js = json_of (dec_text v) in
+      let text = (match json_int_text v with Ok t -> t | _ -> failwith "json_int_text") in
+      let pc = w_ibig_enc v and js = json_of text in
       let sg = if Zar.sign v < 0 then Negative else Positive in
       let body k w = bytes_enc (ibig_ser_asis (zi k) sg (words_of w (Zar.abs v))) in
-      let fid = same (body 8 64 = pc && body 4 32 = pc) in
+      let jfid w = json_int_text_asis (zi w) v = Ok text && json_int_de_asis (zi w) true text = Ok v in
+      let fid = same (body 8 64 = pc && body 4 32 = pc && jfid 64 && jfid 32 && json_int_de true text = Ok v && text = dec_text v) in
       expect ~extra:(fid ^ " cls=ser-int") (Printf.sprintf "ok %s %s %s %s 1" (tok_of_bytes pc) (hx v) (tok_of_bytes js) (hx v)) got
-  | "ser_fbig" -> (
-      let b = n 0 and p = n 2 in
-      let (s, e) = repr_arg b (arg 3) (arg 4) in
-      let pc = w_fbig_enc s e p in
-      let shown = show_repr (s, e) in
-      match got with
-      | [ "ok"; pc'; s1; e1; p1; l1; _; s2; e2; p2; l2 ] ->
-          if pc' = tok_of_bytes pc && s1 ^ " " ^ e1 = shown && p1 = hx p && l1 = "1" && s2 ^ " " ^ e2 = shown && l2 = "1"
-          then pass ~extra:("cls=ser-float path=" ^ (if p2 = hx p then "json-precision-kept" else "json-precision-changed")) ()
-          else fail (Printf.sprintf "ok %s %s %s 1 <text> %s <prec> 1" (tok_of_bytes pc) shown (hx p) shown)
-      | _ -> fail (Printf.sprintf "ok %s %s %s 1 <text> %s <prec> 1" (tok_of_bytes pc) shown (hx p) shown))
-  | "ser_repr" -> (
+  | "ser_fbig" | "ser_repr" -> (
+      (* binary form: exact expectation; text form: Serde/JsonModel.v (Display, then "inf" shortcut + from_str_native).
+         OPEN finding fbig_json_inf_collision: a finite number whose text is "inf" / "-inf" (base >= 24) comes back
+         as an infinity - verdict known only if the implementation returned exactly what the as-is model predicts *)
+      let fb = op = "ser_fbig" in
       let b = n 0 in
-      let (s, e) = repr_arg b (arg 1) (arg 2) in
-      let pc = w_repr_enc s e in
+      let p = if fb then n 2 else Zar.zero in
+      let (s, e) = if fb then repr_arg b (arg 3) (arg 4) else repr_arg b (arg 1) (arg 2) in
+      let pc = if fb then w_fbig_enc s e p else w_repr_enc s e in
       let shown = show_repr (s, e) in
-      match got with
-      | [ "ok"; pc'; s1; e1; l1; _; s2; e2; l2 ] when pc' = tok_of_bytes pc && s1 ^ " " ^ e1 = shown && l1 = "1" && s2 ^ " " ^ e2 = shown && l2 = "1" ->
-          pass ~extra:"cls=ser-float" ()
-      | _ -> fail (Printf.sprintf "ok %s %s 1 <text> %s 1" (tok_of_bytes pc) shown shown))
+      let text = json_float_text b s e in
+      let js = tok_of_bytes (json_of text) in
+      let asis_back = (match json_float_de b text with Ok (s', e') -> Some (show_repr (s', e')) | _ -> None) in
+      let collision = json_inf_collision b s e in
+      let want = Printf.sprintf "ok %s %s%s 1 %s %s <prec> 1" (tok_of_bytes pc) shown (if fb then " " ^ hx p else "") js shown in
+      let split = (match got, fb with
+        | [ "ok"; pc'; s1; e1; p1; l1; j; s2; e2; p2; l2 ], true -> Some (pc', s1 ^ " " ^ e1, p1 = hx p, l1, j, s2 ^ " " ^ e2, p2, l2)
+        | [ "ok"; pc'; s1; e1; l1; j; s2; e2; l2 ], false -> Some (pc', s1 ^ " " ^ e1, true, l1, j, s2 ^ " " ^ e2, "", l2)
+        | _ -> None) in
+      match split with
+      | None -> fail want
+      | Some (pc', v1, p1ok, l1, j, v2, p2, l2) ->
+          let bin_ok = pc' = tok_of_bytes pc && v1 = shown && p1ok && l1 = "1" in
+          let fid = same (j = js && Some v2 = asis_back) in
+          if not bin_ok || l2 <> "1" || j <> js then fail want
+          else if v2 = shown then
+            pass ~extra:(fid ^ " cls=ser-float" ^ (if fb then " path=" ^ (if p2 = hx p then "json-precision-kept" else "json-precision-changed") else "")) ()
+          else if collision && Some v2 = asis_back then { (known "fbig_json_inf_collision" want) with extra = fid ^ " cls=json-inf-collision" }
+          else fail want)
   | "ser_rbig" | "ser_relaxed" ->
       let (cn, cd) = if op = "ser_rbig" then rat_reduce (a 0) (a 1) else rat_reduce2 (a 0) (a 1) in
-      let pc = w_rat_enc cn cd and js = json_of (rat_text cn cd) in
+      let text = (match json_rat_text cn cd with Ok t -> t | _ -> failwith "json_rat_text") in
+      let pc = w_rat_enc cn cd and js = json_of text in
       let v = hx cn ^ " " ^ hx cd ^ " 1" in
-      expect ~extra:"cls=ser-ratio" (Printf.sprintf "ok %s %s %s %s" (tok_of_bytes pc) v (tok_of_bytes js) v) got
+      let fid = same (json_rat_de (op = "ser_relaxed") text = Ok (cn, cd) && text = rat_text cn cd) in
+      expect ~extra:(fid ^ " cls=ser-ratio") (Printf.sprintf "ok %s %s %s %s" (tok_of_bytes pc) v (tok_of_bytes js) v) got
   (* ---------------------------------------------------------------- arbitrary bytes into the binary decoders *)
   | "de_ubig" | "de_ibig" -> (
       let input = bytes_of_tok (arg 0) in
@@ -358,11 +511,21 @@ let judge op args got =
         | _ -> fail "err-or-canonical-value") in
       match plain_json_string input with
       | Some body -> (
-          match from_str_prefix_spec signed_ (zi 10) body with
-          | Ok (v, _) -> expect ~extra:"cls=dej-literal" (Printf.sprintf "ok %s 1 %s 1" (hx v) (tok_of_bytes (json_of (dec_text v)))) got
-          | Err _ -> expect ~extra:"cls=dej-bad-literal" "err decode" got
+          let fid = if !cur_wb > 0 then same (json_int_de_asis (wz ()) signed_ body = json_int_de signed_ body) ^ " " else "" in
+          match json_int_de signed_ body with
+          | Ok v -> expect ~extra:(fid ^ "cls=dej-literal") (Printf.sprintf "ok %s 1 %s 1" (hx v) (tok_of_bytes (json_of (dec_text v)))) got
+          | Err _ -> expect ~extra:(fid ^ "cls=dej-bad-literal") "err decode" got
           | _ -> fail "spec-undefined")
       | None -> generic ())
+  | ("dej_rbig" | "dej_relaxed") when plain_json_string (bytes_of_tok (arg 0)) <> None -> (
+      (* a plain JSON string: Repr::from_str_with_radix_prefix + zero guard + reduce (Serde/JsonModel.v) *)
+      let body = (match plain_json_string (bytes_of_tok (arg 0)) with Some b -> b | None -> []) in
+      match json_rat_de (op = "dej_relaxed") body with
+      | Ok (nn, dd) ->
+          let again = (match json_rat_text nn dd with Ok t -> tok_of_bytes (json_of t) | _ -> "?") in
+          expect ~extra:"asis=same cls=dej-literal" (Printf.sprintf "ok %s %s 1 %s 1" (hx nn) (hx dd) again) got
+      | Err _ -> expect ~extra:"asis=same cls=dej-bad-literal" "err decode" got
+      | _ -> fail "spec-undefined")
   | "dej_rbig" | "dej_relaxed" -> (
       match got with
       | [ "ok"; nn; dd; lay; again; sm ] ->
@@ -371,6 +534,22 @@ let judge op args got =
           if lay = "1" && sm = "1" && canon && again = tok_of_bytes (json_of (rat_text nn dd)) then pass ~extra:"cls=dej-ok" () else fail "canonical-rational"
       | "err" :: _ -> pass ~nt:false ~extra:"cls=dej-err" ()
       | _ -> fail "err-or-canonical-value")
+  | "dej_fbig" when plain_json_string (bytes_of_tok (arg 2)) <> None -> (
+      (* a plain JSON string: "inf" / "-inf" shortcut, then FBig::from_str_native; the value must be that of the model *)
+      let b = n 0 in
+      let body = (match plain_json_string (bytes_of_tok (arg 2)) with Some t -> t | None -> []) in
+      match json_float_de b body, got with
+      | Ok (s, e), [ "ok"; s'; e'; p; lay; again; sm ] ->
+          let value_ok = s' ^ " " ^ e' = show_repr (s, e) && lay = "1" && (Zar.sign s = 0 || fbig_canonb b s e (usz p)) in
+          let text_ok = again = tok_of_bytes (json_of (json_float_text b s e)) in
+          if value_ok && text_ok && sm = "1" then pass ~extra:"asis=same cls=dej-literal" ()
+          else if value_ok && text_ok && sm = "0" && json_inf_collision b s e then
+            (* open finding: the decoded finite number is written back as "inf" and that text decodes to an infinity *)
+            { (known "fbig_json_inf_collision" "re-encoding decodes to the same number") with extra = "asis=same cls=json-inf-collision" }
+          else fail ("ok " ^ show_repr (s, e) ^ " <prec> 1 <text> 1")
+      | Ok (s, e), _ -> fail ("ok " ^ show_repr (s, e) ^ " <prec> 1 <text> 1")
+      | Err _, _ -> expect ~extra:"asis=same cls=dej-bad-literal" "err decode" got
+      | _, _ -> fail "spec-undefined")
   | "dej_fbig" -> (
       let b = n 0 in
       match got with
@@ -378,7 +557,122 @@ let judge op args got =
           if lay = "1" && sm = "1" && (s = "inf" || s = "-inf" || fbig_canonb b (z s) (z e) (usz p)) then pass ~extra:"cls=dej-ok" () else fail "canonical-float"
       | "err" :: _ -> pass ~nt:false ~extra:"cls=dej-err" ()
       | _ -> fail "err-or-canonical-value")
-  | "config" -> (match got with [ "ok"; "config"; _; _ ] -> pass ~nt:false () | _ -> fail "ok word-bits debug-assertions")
+  | "kmul" -> (
+      (* one multiplication kernel on the word slices of the answering build (verif_hooks::mul_kernel); the word-level
+         as-is model of C01 (Int/RingMulW.v: schoolbook chunks, Karatsuba, Toom-3 slice by slice) is run on the SAME
+         slices at the SAME word size; both must give c + (+-) a * b *)
+      let which = Zar.to_int (n 0) and positive = arg 1 = "1" in
+      let c = a 2 and x = a 3 and y = a 4 in
+      let want = Zar.add c (if positive then Zar.mul x y else Zar.neg (Zar.mul x y)) in
+      match got with
+      | [ "ok"; total; lens ] when String.length lens > 4 && String.sub lens 0 4 = "len=" ->
+          let w = !cur_wb in
+          let (la, lb) = (match String.split_on_char ',' (String.sub lens 4 (String.length lens - 4)) with
+            | [ x; y ] -> (int_of_string ("0x" ^ x), int_of_string ("0x" ^ y)) | _ -> failwith "len=") in
+          let fid =
+            if w = 0 then "" else begin
+              let wl v = (Zar.numbits v + w - 1) / w in
+              let (x, y) = if wl x >= wl y then (x, y) else (y, x) in
+              let ws v k = to_words (zi w) (nat_of_int k) v in
+              let kernel = (match which with
+                | 1 -> simple_add_signed_mul_w | 2 -> karatsuba_add_signed_mul_w | 3 -> toom3_add_signed_mul_w | _ -> add_signed_mul_w) in
+              let r = kernel (zi w) x2by1 wr_T_simple wr_T_kara wr_CHUNK (ws c (la + lb)) (if positive then Positive else Negative) (ws x la) (ws y lb) in
+              (match r with
+               | Ok (r, carry) -> same (Zar.equal (Zar.add (value (zi w) r) (Zar.mul carry (Zar.pow (zi 2) (w * (la + lb))))) (z total))
+               | _ -> same false) ^ Printf.sprintf " path=k%d-w%d" which w
+            end in
+          if Zar.equal (z total) want then pass ~extra:(fid ^ " cls=kernel") () else fail ("ok " ^ hx want)
+      | _ -> fail ("ok " ^ hx want))
+  | "mulparams" ->
+      let rec int_of_nat = function O -> 0 | S k -> 1 + int_of_nat k in
+      (match got with
+       | [ "ok"; t1; t2; _; _ ] when Zar.to_int (usz t1) = int_of_nat wr_T_simple && Zar.to_int (usz t2) = int_of_nat wr_T_kara -> pass ~nt:false ()
+       | _ -> fail "thresholds-of-the-regenerated-Params.v")
+  | "config" -> (
+      (* the regenerated cfg_if! chain of integer/src/arch/mod.rs (coq/gen/ArchGen.v), run on the cfg values of the
+         answering build, must select an architecture whose Word has exactly the width the build reports *)
+      let chars_of (t : string) = t in   (* Coq strings are extracted to native strings (ExtrOcamlNativeString) *)
+      let kv t = (match String.index_opt t '=' with Some i -> String.sub t (i + 1) (String.length t - i - 1) | None -> "") in
+      match got with
+      | [ "ok"; "config"; wb; _; fb; arch; pw ] ->
+          let c = (if kv fb = "-" then [] else [ (KForceBits, chars_of (kv fb)) ]) @ [ (KTargetArch, chars_of (kv arch)); (KPointerWidth, chars_of (kv pw)) ] in
+          (match arch_word_bits c with
+           | Some w when Zar.equal w (usz wb) -> pass ~nt:true ~extra:("cls=arch-w" ^ Zar.to_string w) ()
+           | Some w -> fail ("word-bits-" ^ Zar.to_string w)
+           | None -> fail "architecture-in-the-table")
+      | _ -> fail "ok config word-bits debug-assertions fb= arch= pw=")
   | _ -> fail ("unknown-op-" ^ op)
+
+(* ---------------------------------------------------------------- word-level as-is runs at the word size of the build
+   (Serde/WordRuns.v: each run = specification for EVERY word size; here: the answer of the model at w = 64 / 32 against
+   the answer of the build with that word size).  Some true = same, Some false = diff, None = no word-level run *)
+let rec int_of_nat = function O -> 0 | S k -> 1 + int_of_nat k
+let wl_fidelity op args (got : string list) : (bool * string) option =
+  let w = !cur_wb in
+  if w <> 64 && w <> 32 then None else
+  let wz = zi w in
+  let arg i = List.nth args i in
+  let a i = z (arg i) and n i = usz (arg i) in
+  let gots = String.concat " " got in
+  let okz = function Ok v -> "ok " ^ hx v | Panic _ -> "panic" | _ -> "?" in
+  let words v = (Zar.numbits (Zar.abs v) + w - 1) / w in
+  (* which kernel the size dispatch of mul enters first at this word size *)
+  let mul_path x y =
+    let l = min (words x) (words y) in
+    if l <= 2 && max (words x) (words y) <= 2 then "inline" else if l <= int_of_nat wr_T_simple then "schoolbook"
+    else if l <= int_of_nat wr_T_kara then "karatsuba" else "toom3" in
+  let big v = Zar.numbits (Zar.abs v) > 40000 in
+  match op with
+  | "mul" when not (big (a 0) || big (a 1)) -> Some (okz (wr_mul wz (a 0) (a 1)) = gots, Printf.sprintf "w%d-%s" w (mul_path (a 0) (a 1)))
+  | "sqr" when not (big (a 0)) -> Some (okz (wr_sqr wz (a 0)) = gots, Printf.sprintf "w%d-%s" w (mul_path (a 0) (a 0)))
+  | "add" -> Some (okz (wr_add wz (a 0) (a 1)) = gots, Printf.sprintf "w%d" w)
+  | "sub" -> Some (okz (wr_sub wz (a 0) (a 1)) = gots, Printf.sprintf "w%d" w)
+  | "pow" when Zar.numbits (a 0) * Zar.to_int (n 1) < 20000 -> Some (okz (wr_pow wz (a 0) (n 1)) = gots, Printf.sprintf "w%d" w)
+  | "divrem" when not (big (a 0)) ->
+      let t = (match wr_divrem wz (a 0) (a 1) with Ok (q, r) -> "ok " ^ hx q ^ " " ^ hx r | Panic _ -> "panic DivideBy0" | _ -> "?") in
+      let lb = words (a 1) in
+      Some (t = gots, Printf.sprintf "w%d-%s" w (if lb <= 1 then "by-word" else if lb = 2 then "by-dword" else if lb <= 32 then "schoolbook" else "divide-conquer"))
+  | "and" -> Some ("ok " ^ hx (wr_and wz (a 0) (a 1)) = gots, Printf.sprintf "w%d" w)
+  | "or" -> Some ("ok " ^ hx (wr_or wz (a 0) (a 1)) = gots, Printf.sprintf "w%d" w)
+  | "xor" -> Some ("ok " ^ hx (wr_xor wz (a 0) (a 1)) = gots, Printf.sprintf "w%d" w)
+  | "shl" -> Some ("ok " ^ hx (wr_shl wz (a 0) (n 1)) = gots, Printf.sprintf "w%d" w)
+  | "shr" -> Some ("ok " ^ hx (wr_shr wz (a 0) (n 1)) = gots, Printf.sprintf "w%d" w)
+  | "bitlen" -> Some ("ok " ^ hx (wr_bitlen wz (a 0)) = gots, Printf.sprintf "w%d" w)
+  | "tz" -> Some ("ok " ^ hopt (wr_tz wz (a 0)) = gots, Printf.sprintf "w%d" w)
+  | "ones" -> Some ("ok " ^ hx (wr_ones wz (a 0)) = gots, Printf.sprintf "w%d" w)
+  | "tostr" when not (big (a 1)) ->
+      let t = (match wr_tostr wz (n 0) (a 1) with Ok t -> "ok " ^ tok_of_bytes t | _ -> "?") in
+      let pow2 = Zar.equal (n 0) (Zar.shift_left Zar.one (Zar.log2 (n 0))) in
+      Some (t = gots, Printf.sprintf "w%d-%s" w (if pow2 then "pow2" else if words (a 1) <= 2 then "prepared" else if words (a 1) <= 16 then "medium" else "large"))
+  | "fromstr" ->
+      let text = bytes_of_tok (arg 1) in
+      if List.exists (fun c -> Zar.to_int c >= 0x80) text || List.length text > 12000 then None
+      else
+        let t = (match wr_fromstr wz (n 0) text with Ok v -> "ok " ^ hx v ^ " 1" | Err _ -> "err parse" | _ -> "?") in
+        Some (t = gots, Printf.sprintf "w%d" w)
+  | "tobytes" ->
+      let v = a 0 in
+      let ule = to_le_bytes_asis wz (Zar.abs v) and ile = to_signed_le_bytes_asis wz v in
+      Some (Printf.sprintf "ok %s %s %s %s" (tok_of_bytes ule) (tok_of_bytes (List.rev ule)) (tok_of_bytes ile) (tok_of_bytes (List.rev ile)) = gots, Printf.sprintf "w%d" w)
+  | "sqrt" when not (big (a 0)) -> Some (okz (wr_sqrt wz (a 0)) = gots, Printf.sprintf "w%d-%s" w (if words (a 0) <= 2 then "dword" else "large"))
+  | "modmul" when Zar.sign (a 0) > 0 && not (big (a 0)) ->
+      Some (okz (ws_modmul wz (a 0) (a 1) (a 2)) = gots, Printf.sprintf "w%d-%s" w (if words (a 0) <= 1 then "single" else if words (a 0) = 2 then "double" else "large"))
+  | "modpow" when Zar.sign (a 0) > 0 && words (a 0) <= 40 ->
+      Some (okz (ws_modpow wz (a 0) (a 1) (a 2)) = gots, Printf.sprintf "w%d-%s" w (if words (a 0) <= 1 then "single" else if words (a 0) = 2 then "double" else "large"))
+  | "tof64" ->
+      let v = a 0 in
+      let (b64, c64) = wr_tof64 wz v and (b32, c32) = wr_tof32 wz v in
+      Some (Printf.sprintf "ok %s %s %s %s" (hx b64) (cmp_tok c64 0) (hx b32) (cmp_tok c32 0) = gots, Printf.sprintf "w%d-%s" w (if words v <= 2 then "dword" else "large"))
+  | _ -> None
+
+let judge op args got =
+  let got = (match got with
+    | "ok" :: t :: rest when String.length t > 3 && String.sub t 0 3 = "wb=" ->
+        cur_wb := (try int_of_string ("0x" ^ String.sub t 3 (String.length t - 3)) with _ -> 0); "ok" :: rest
+    | _ -> cur_wb := 0; got) in
+  let v = judge0 op args got in
+  match (match got with "ok" :: _ | "panic" :: _ | "err" :: _ -> wl_fidelity op args got | _ -> None) with
+  | None -> v
+  | Some (same_, path) -> { v with extra = v.extra ^ " asis=" ^ (if same_ then "same" else "diff") ^ " path=" ^ path }
 
 let () = serve judge
